@@ -281,6 +281,15 @@ def run(F, R, tier, M=None):
                 continue
             _check_f2i(F, R, f, S, n)
 
+    # ---- E2 integral narrowing of parsed values ----------------------------------------------------
+    R.rule("E2", "input-processing code (gm2_slha_io, gm2calc.cpp): every live conversion of a 64-bit integer to a narrower "
+                 "integer type is dominated by a two-sided range test of the same operand (a parsed key such as 2^32 + 3 "
+                 "must be rejected, not aliased to key 3)", 0)
+    n_narrow, n_dead = narrowing_check(F, R, "E2")
+    R.analysed["integral_narrowings"] = dict(found=n_narrow, in_dead_template_branches=n_dead)
+    if n_narrow < 2:
+        R.soft_broken("E2: the narrowing sites of convert_to<> (dead template branches) were not seen: extraction incomplete")
+
     # ---- F parsed indices ----------------------------------------------------------------------
     R.rule("F", "integers parsed from input are not used in arithmetic before a range test, and index an Eigen "
                 "object only under 1 <= v <= rows/cols", 3)
@@ -406,6 +415,60 @@ def _check_diagnostics(F, R, VS, main, prog):
         # handler case: print_error in the same handler body counts (before covers siblings)
         R.check("C", ok, "%s @%s" % (f["name"], n.get("l")), F.loc(f, n), why,
                 key="C|%s|%s" % (f["name"], n.get("k")))
+
+
+def narrowing_check(F, R, rid):
+    """shared by C14-E2 and C13-K7: live 64-bit -> narrower integral conversions in the input-processing code"""
+    WID = {"long": 8, "unsigned long": 8, "long long": 8, "unsigned long long": 8, "Eigen::Index": 8, "std::size_t": 8,
+           "size_t": 8, "std::ptrdiff_t": 8, "ptrdiff_t": 8, "int": 4, "unsigned int": 4, "unsigned": 4, "short": 2,
+           "unsigned short": 2, "char": 1, "unsigned char": 1, "signed char": 1}
+    n_narrow = n_dead = 0
+    for k, f in sorted(F.functions.items()):
+        if not (f["file"].startswith("src/gm2_slha_io") or f["file"] == "src/gm2calc.cpp"):
+            continue
+        S = None
+        seen_sites = set()
+        for n in walk(f["body"]):
+            if n.get("k") not in ("ImplicitCastExpr", "CXXStaticCastExpr", "CStyleCastExpr", "CXXFunctionalCastExpr") or not n.get("c"):
+                continue
+            if n.get("k") == "ImplicitCastExpr" and n.get("ck") != "IntegralCast":
+                continue
+            src = n["c"][-1]
+            ws, wt = WID.get(_unq(src.get("t"))), WID.get(_unq(n.get("t")))
+            if not ws or not wt or ws <= wt or n.get("iv") is not None or src.get("iv") is not None:
+                continue
+            if (f["file"], n.get("l"), n.get("i")) in seen_sites:
+                continue
+            seen_sites.add((f["file"], n.get("l"), n.get("i")))
+            S = S or Struct(f)
+            n_narrow += 1
+            if is_dead(S, n):
+                n_dead += 1
+                continue
+            operand = strip_all(src)
+            lo_ok = hi_ok = False
+            for g in S.guards(n):
+                if g[0] == "switch" or g[1] is not True:
+                    continue
+                for c in conjuncts(g[0]):
+                    if c.get("k") != "BinaryOperator" or c.get("op") not in ("<", "<=", ">", ">="):
+                        continue
+                    l, r = c["c"]
+                    if same_expr(l, operand):
+                        op = c["op"]
+                    elif same_expr(r, operand):
+                        op = {"<": ">", "<=": ">=", ">": "<", ">=": "<="}[c["op"]]
+                    else:
+                        continue
+                    if op in (">", ">="):
+                        lo_ok = True
+                    else:
+                        hi_ok = True
+            R.check(rid, lo_ok and hi_ok, "%s: %s -> %s" % (f["name"].split("::")[-1], _unq(src.get("t")), _unq(n.get("t"))),
+                    F.loc(f, n), "a 64-bit integer is narrowed to %s without a dominating two-sided range test: values outside the "
+                    "target range wrap around instead of being rejected" % _unq(n.get("t")),
+                    key=rid + "|%s|%s" % (f["name"].split("::")[-1], _unq(n.get("t"))))
+    return n_narrow, n_dead
 
 
 def _check_f2i(F, R, f, S, n):
